@@ -36,6 +36,7 @@ type vfObject struct {
 	Kind     string // group | dataset | datatype | other
 	Addr     uint64
 	Info     string
+	Shape    string // dims from the parsed dataspace message, or ERR
 	Read     string // float64 bit patterns or ERR
 	Strings  string
 	Compound string
@@ -49,7 +50,7 @@ func (o *vfObject) Content() string {
 	var sb strings.Builder
 	fmt.Fprintf(&sb, "%s", o.Kind)
 	if o.Kind == "dataset" {
-		fmt.Fprintf(&sb, " info=%q read=%s strings=%s compound=%s", o.Info, o.Read, o.Strings, o.Compound)
+		fmt.Fprintf(&sb, " info=%q shape=%s read=%s strings=%s compound=%s", o.Info, o.Shape, o.Read, o.Strings, o.Compound)
 	}
 	if o.Kind == "group" {
 		fmt.Fprintf(&sb, " children=%q", o.Children)
@@ -166,6 +167,14 @@ func vfDatasetDump(d *Dataset, o *vfObject) {
 	}) {
 		o.Info = "PANIC"
 	}
+	o.Shape = "ERR"
+	guard(func() {
+		if hdr, err := core.ReadObjectHeader(d.file.osFile, d.address, d.file.sb); err == nil {
+			if di, err := core.ReadDatasetInfo(hdr, d.file.sb); err == nil && di.Dataspace != nil {
+				o.Shape = fmt.Sprint(di.Dataspace.Dimensions)
+			}
+		}
+	})
 	if guard(func() {
 		v, err := d.Read()
 		if err != nil {
